@@ -106,11 +106,49 @@ def name_sink_obligations(ctx, rep, rule, why=None):
                 key=f"{rule}|{func.qualname}|{norm(node)[:60]}", nontrivial=bool(rec["kinds"] - {"CONST", "OBJ"}))
 
 
+
+_RE_FLAGS = {"A", "ASCII", "I", "IGNORECASE", "L", "LOCALE", "M", "MULTILINE", "S", "DOTALL", "U", "UNICODE", "X", "VERBOSE", "NOFLAG", "DEBUG"}
+
+
+def regex_flag_position_obligations(ctx, rep, rule):
+    """`re.sub(p, r, s, re.X)` passes the flag as *count* (and `re.split(p, s, re.X)` as maxsplit): the substitution that is
+    meant to remove line ends or collapse blanks from text that goes into markup then stops after that many matches."""
+    prog = ctx.prog
+    n, found = 0, []
+    for f in prog.all_functions():
+        if not f.module.name.startswith(("pygopherd", "simpletal")) or ".tests" in f.module.name:
+            continue
+        for c in ast.walk(f.node):
+            if not isinstance(c, ast.Call):
+                continue
+            d = dotted(c.func) or ""
+            pos = {"re.sub": 3, "re.subn": 3, "re.split": 2}.get(d)
+            if pos is None and isinstance(c.func, ast.Attribute) and c.func.attr in ("sub", "subn", "split"):
+                pos = {"sub": 2, "subn": 2, "split": 1}[c.func.attr] if not d.startswith("re.") else None
+            if pos is None:
+                continue
+            n += 1
+            if len(c.args) > pos:
+                a = c.args[pos]
+                names = {(dotted(x) or "") for x in ast.walk(a) if isinstance(x, ast.Attribute)}
+                if any(nm.startswith("re.") and nm.split(".")[-1] in _RE_FLAGS for nm in names):
+                    found.append((f, c, norm(a)))
+    for f, c, a in found:
+        rep.add(rule, f"{f.qualname}: {norm(c)[:60]}", False, ctx.where(f, c),
+                f"`{a}` is passed in the position of count/maxsplit, not as flags=: only that many matches are replaced - a title or attribute with more "
+                "line ends than that keeps them, and text after a raw CR LF passes for a new header line", key=f"{rule}|{f.qualname}|{norm(c)[:40]}")
+    if not found:
+        rep.ok(rule, f"regular-expression flags are passed as flags [{n} substitution / split calls]", "pygopherd", "", key=f"{rule}|none")
+
+
 def check(ctx, rep):
     prog = ctx.prog
     rep.rule("R13a", "operands interpolated into HTML/WML built by the server: escaped in text, quote-escaped or percent-encoded in attributes", floor=20)
     rep.rule("R13b", "HTTP header lines interpolate only server-chosen values", floor=2)
     rep.rule("R13c", "redirect page: URL escaped with quotes; filter rejects \" CR LF TAB NUL", floor=5)
+    rep.rule("R13f", "substitutions that clean text for markup run to the end: no regular-expression flag sits in the count / maxsplit position "
+             "of re.sub / re.split", floor=1)
+    regex_flag_position_obligations(ctx, rep, "R13f")
     rep.rule("R13e", "= R03m: names, selectors and other data are arguments of the format operations that build markup, never part of the format "
              "string - escaping does not touch `%` and braces, so `{img}` in a file name would be interpreted a second time", floor=1)
     from .c03 import format_string_obligations
